@@ -303,15 +303,15 @@ CONTEXT_SETS = [["arc"], ["arc", "MyCtx"], ["arc", "MyCtx", "OtherCtx"], ["MyCtx
 ALL_FOREIGN = ["vtblthing", "rettmp_like", "ctx_suffix", "tagged", "func"]
 
 
-def wrapped_model(ctxs, wrapped, cont="Box", foreign=(), extra_plain=True, **kw):
+def wrapped_model(ctxs, wrapped, cont="Box", foreign=(), extra_plain=True, host_name="Host", **kw):
     """The PluginInner shape: trait Host whose associated types are wrapped with group Bundle (Alpha mandatory, Beta optional),
     one Host object per context in `ctxs`. `wrapped` = list of wrapped method kinds or None (plain trait)."""
     alpha = trait("Alpha", [meth("alpha_get", "ref", ["u64"], "u64")])
     beta = trait("Beta", [meth("beta_set", "mut", ["slice", "usize"], "void"), meth("beta_dup", "ref", [], "self")])
     host_methods = [meth("host_id", "ref", [], "u64")] if extra_plain else []
-    host = trait("Host", host_methods, {"group": "Bundle", "methods": list(wrapped)} if wrapped else None)
+    host = trait(host_name, host_methods, {"group": "Bundle", "methods": list(wrapped)} if wrapped else None)
     customs = [c for c in ctxs if c not in ("none", "arc")]
-    inst = [obj("Host", cont, c) for c in ctxs]
+    inst = [obj(host_name, cont, c) for c in ctxs]
     if not wrapped:
         inst += [grp("Bundle", cont, c) for c in ctxs]
     m = model([host, alpha, beta], [{"name": "Bundle", "mandatory": ["Alpha"], "optional": ["Beta"]}], inst,
@@ -350,11 +350,11 @@ def c18_cases(tier):
             for fo in ([[]] if quick else [[], ALL_FOREIGN]):
                 for lang in langs:
                     add("contexts", "ctx%d:%s" % (len(ctxs), "+".join(w) if w else "plain"), wrapped_model(ctxs, w, cont, fo), lang)
-    # S2a a trait WITHOUT temporary storage whose name is a suffix of a trait WITH temporary storage (Ost / Host), same context
+    # S2a a trait WITHOUT temporary storage whose name is a suffix of a trait WITH temporary storage (Host / PluginHost), same context
     for w in (["get_mut"], ["borrow", "into", "get_mut", "get_ref"]):
-        wm = wrapped_model(["arc"], w)
-        wm["traits"].append(trait("Ost", [meth("ost_ping", "ref", [], "void")]))
-        wm["instances"].append(obj("Ost"))
+        wm = wrapped_model(["arc"], w, host_name="PluginHost")
+        wm["traits"].append(trait("Host", [meth("host_ping", "ref", [], "void")]))
+        wm["instances"].append(obj("Host"))
         for lang in langs:
             add("contexts", "names:suffix_of_rettmp_trait:%d" % len(w), wm, lang)
     # S2b 1..3 distinct callback element types (struct items) in one header, in one method / spread over traits, with/without contexts
